@@ -48,7 +48,7 @@ type CNode struct {
 
 func (c *CNode) NRows() int {
 	switch c.T.Kind {
-	case "fixed", "uuid", "str", "lc", "enum":
+	case "fixed", "uuid", "str", "json", "lc", "enum":
 		return len(c.Rows)
 	case "bool":
 		return len(c.Bools)
@@ -120,6 +120,8 @@ func parseCH(s string) (*TNode, error) {
 		t.Kind, t.Sub = "point", []*TNode{f1, f2}
 	case "String":
 		t.Kind = "str"
+	case "JSON":
+		t.Kind = "json"
 	case "Bool":
 		t.Kind = "bool"
 	case "UUID":
@@ -231,6 +233,8 @@ func (t *TNode) ModelTy() string {
 		return "u"
 	case "str":
 		return "s"
+	case "json":
+		return "(V 1 s)"
 	case "nothing":
 		return "n"
 	case "enum":
@@ -294,6 +298,8 @@ func (c *CNode) ModelCol() string {
 		return "(" + join("u", hexRows(c.Rows)) + ")"
 	case "str":
 		return "(" + join("s", hexRows(c.Rows)) + ")"
+	case "json":
+		return "(V 1 (" + join("s", hexRows(c.Rows)) + "))"
 	case "nothing":
 		return fmt.Sprintf("(n %d)", c.N)
 	case "enum":
@@ -405,7 +411,7 @@ func genLeafRow(r *Rng, t *TNode, o genOpts) []byte {
 		return genFixed(r, t)
 	case "uuid":
 		return r.Bytes(16)
-	case "str":
+	case "str", "json":
 		return genStrBytes(r, o.bigStrings)
 	case "enum":
 		return []byte(t.Enum[r.Intn(len(t.Enum))].Name)
@@ -434,7 +440,7 @@ func genOffsets(r *Rng, rows int) []uint64 {
 func genCol(r *Rng, t *TNode, rows int, o genOpts) *CNode {
 	c := &CNode{T: t}
 	switch t.Kind {
-	case "fixed", "uuid", "str", "enum":
+	case "fixed", "uuid", "str", "json", "enum":
 		c.Rows = make([][]byte, rows)
 		for i := range c.Rows {
 			c.Rows[i] = genLeafRow(r, t, o)
@@ -542,6 +548,8 @@ func callMethod(col any, name string) (proto.Column, bool) {
 
 func newColumn(t *TNode) (proto.Column, error) {
 	switch t.Kind {
+	case "json":
+		return new(proto.ColJSONStr), nil
 	case "arr":
 		inner, err := newColumn(t.Sub[0])
 		if err != nil {
@@ -1004,7 +1012,7 @@ var colLeaves = []string{
 	"DateTime64(0)", "DateTime64(3)", "DateTime64(6, 'UTC')", "DateTime64(9)",
 	"Enum8('a' = 1, 'b' = 2, 'c' = -3)", "Enum16('x' = -300, 'y' = 300)",
 	"IntervalSecond", "IntervalQuarter", "Decimal32", "Decimal64", "Decimal128", "Decimal256", "Decimal(9, 2)", "Decimal(38, 10)",
-	"FixedString(8)", "FixedString(16)", "FixedString(3)", "FixedString(1)", "Point",
+	"FixedString(8)", "FixedString(16)", "FixedString(3)", "FixedString(1)", "Point", "JSON",
 }
 
 // compositions that can only be constructed statically
@@ -1029,7 +1037,9 @@ func genType(r *Rng) *TNode {
 			s = colExtras[r.Intn(len(colExtras))]
 		} else {
 			s = colLeaves[r.Intn(len(colLeaves))]
-			for d := r.Intn(3); d > 0; d-- {
+			// ColJSONStr's Array()/Nullable()/LowCardinality() return wrappers over its plain string column (the
+			// result is an Array(String) … column): JSON exists as a top-level column type only
+			for d := r.Intn(3); d > 0 && s != "JSON"; d-- {
 				switch r.Intn(3) {
 				case 0:
 					s = "Array(" + s + ")"
